@@ -1398,6 +1398,22 @@ func Run(c *hx.Ctx) error {
 			return nil
 		}
 	}
+	// the compaction paths on the same input files
+	nPaths := 3
+	if thorough {
+		nPaths = 25
+	}
+	if part := c.Arg("part", ""); part == "" || part == "paths" {
+		rp := hx.NewRng(c.Seed ^ 0x7061746873)
+		for i := 0; i < nPaths; i++ {
+			if err := runPaths(c, rp.Fork(), i); err != nil {
+				return err
+			}
+		}
+		if part == "paths" {
+			return nil
+		}
+	}
 	rm := hx.NewRng(c.Seed ^ 0x6d756c7469)
 	for i := 0; i < nMulti; i++ {
 		if err := runMultiHistory(c, rm.Fork(), i, workers, thorough); err != nil {
